@@ -40,7 +40,7 @@ if ok:
     shutil.copy(os.path.join(src, 'demo.py'), dst)
     if os.path.exists(os.path.join(src, 'notes.md')):
         shutil.copy(os.path.join(src, 'notes.md'), dst)
-    meta = dict(property=sid, source='independent sub-agent given only the property text and a scratch worktree',
+    meta = dict(property=sid[:3], seed=name, source='independent sub-agent given only the property text and a scratch worktree',
                 confirmed_by_me=dict(patch_applies_to_repo_head=True, pinned_tests_pass_with_change=res['tests_line'],
                                      demo_exit_with_change=1, demo_exit_unchanged=0),
                 what_i_ran=['git worktree add --detach <scratch> HEAD; git apply patch.diff',
